@@ -65,6 +65,32 @@ type recCase struct {
 	Start   int
 	N       int
 	Reverse bool
+	Dirty   int `json:",omitempty"` // the row was loaded with SetBulk from a wider scan line: 1 = every padding bit of the last word set, 2 = alternating padding bits
+}
+
+// dirtyRow builds the row b with BitArray.SetBulk from 32-bit words whose bits beyond the row
+// width are not zero (a caller loading 32-pixel chunks of a wider packed scan line). Get, GetSize,
+// GetNextSet and GetNextUnset treat such a row as exactly len(b) pixels.
+func dirtyRow(b []bool, kind int) *gozxing.BitArray {
+	r := gozxing.NewBitArray(len(b))
+	for w := 0; w*32 < len(b); w++ {
+		var v uint32
+		for k := 0; k < 32; k++ {
+			i := w*32 + k
+			switch {
+			case i < len(b):
+				if b[i] {
+					v |= 1 << uint(k)
+				}
+			case kind == 1:
+				v |= 1 << uint(k)
+			case kind == 2 && (i-len(b))%2 == 1:
+				v |= 1 << uint(k)
+			}
+		}
+		r.SetBulk(w*32, v)
+	}
+	return r
 }
 
 func bitsString(b []bool) string {
@@ -78,7 +104,7 @@ func bitsString(b []bool) string {
 	return string(s)
 }
 
-func checkRecord(l *mc.Local, r *gozxing.BitArray, b []bool, start, n int) {
+func checkRecord(l *mc.Local, r *gozxing.BitArray, b []bool, start, n int, dirty ...int) {
 	counters := make([]int, n)
 	for i := range counters {
 		counters[i] = 99 // must be overwritten
@@ -86,7 +112,10 @@ func checkRecord(l *mc.Local, r *gozxing.BitArray, b []bool, start, n int) {
 	var err error
 	pm, site := mc.Guard(func() { err = oned.RecordPattern(r, start, counters) })
 	l.Count("evaluations", 1)
-	cs := recCase{bitsString(b), start, n, false}
+	cs := recCase{Row: bitsString(b), Start: start, N: n}
+	if len(dirty) > 0 {
+		cs.Dirty = dirty[0]
+	}
 	if pm != "" {
 		chk.Violation("C20/RecordPattern/panic/"+site, fmt.Sprintf("panic %s on %+v", pm, cs), cs)
 		return
@@ -111,7 +140,7 @@ func checkRecord(l *mc.Local, r *gozxing.BitArray, b []bool, start, n int) {
 	}
 }
 
-func checkRecordReverse(l *mc.Local, r *gozxing.BitArray, b []bool, start, n int) {
+func checkRecordReverse(l *mc.Local, r *gozxing.BitArray, b []bool, start, n int, dirty ...int) {
 	counters := make([]int, n)
 	for i := range counters {
 		counters[i] = 99
@@ -119,7 +148,10 @@ func checkRecordReverse(l *mc.Local, r *gozxing.BitArray, b []bool, start, n int
 	var err error
 	pm, site := mc.Guard(func() { err = oned.RecordPatternInReverse(r, start, counters) })
 	l.Count("evaluations", 1)
-	cs := recCase{bitsString(b), start, n, true}
+	cs := recCase{Row: bitsString(b), Start: start, N: n, Reverse: true}
+	if len(dirty) > 0 {
+		cs.Dirty = dirty[0]
+	}
 	if pm != "" {
 		chk.Violation("C20/RecordPatternInReverse/panic/"+site, fmt.Sprintf("panic %s on %+v", pm, cs), cs)
 		return
@@ -171,23 +203,31 @@ func runRecord() {
 			jobs = append(jobs, job{n, lo, hi})
 		}
 	}
-	chk.Range(fmt.Sprintf("RecordPattern/InReverse: all rows of length 0..%d x all starts (0..len) x counter counts 1..10", maxLen), len(jobs),
+	chk.Range(fmt.Sprintf("RecordPattern/InReverse: all rows of length 0..%d x all starts (0..len) x counter counts 1..10; every row also loaded with SetBulk from words whose bits beyond the row width are set (all / alternating) x counter counts 1..4", maxLen), len(jobs),
 		func(i int) string { return fmt.Sprint(jobs[i]) },
 		func(l *mc.Local, i int) {
 			j := jobs[i]
 			for bits := j.lo; bits < j.hi; bits++ {
 				r, b := rowFromBits(bits, j.n)
+				d1, d2 := dirtyRow(b, 1), dirtyRow(b, 2)
 				for n := 1; n <= 10; n++ {
 					for start := 0; start <= j.n; start++ {
 						checkRecord(l, r, b, start, n)
 						if start < j.n {
 							checkRecordReverse(l, r, b, start, n)
 						}
+						if j.n%32 != 0 && n <= 4 {
+							checkRecord(l, d1, b, start, n, 1)
+							checkRecord(l, d2, b, start, n, 2)
+							if start < j.n {
+								checkRecordReverse(l, d1, b, start, n, 1)
+							}
+						}
 					}
 				}
 			}
 		})
-	chk.Sample("record", recCase{"..XX.XXX.", 2, 3, false})
+	chk.Sample("record", recCase{Row: "..XX.XXX.", Start: 2, N: 3})
 	// long rows generated from run lengths: all sequences of <= K runs from {1,2,5,40}
 	K := chk.Pick(6, 8)
 	menu := []int{1, 2, 5, 40}
@@ -240,8 +280,12 @@ func runRecord() {
 					ss = append(ss, s)
 				}
 				sort.Ints(ss)
+				d1 := dirtyRow(b, 1)
 				for _, s := range ss {
 					for _, n := range []int{1, 2, 3, 4, 6, 7, 10} {
+						if len(b)%32 != 0 {
+							checkRecord(l, d1, b, s, n, 1)
+						}
 						checkRecord(l, r, b, s, n)
 						if s < len(b) {
 							checkRecordReverse(l, r, b, s, n)
@@ -527,9 +571,12 @@ func replay() {
 		}
 	}
 	fmt.Printf("replay %+v\n", c)
+	if c.Dirty != 0 {
+		r = dirtyRow(b, c.Dirty)
+	}
 	if c.Reverse {
-		checkRecordReverse(l, r, b, c.Start, c.N)
+		checkRecordReverse(l, r, b, c.Start, c.N, c.Dirty)
 	} else {
-		checkRecord(l, r, b, c.Start, c.N)
+		checkRecord(l, r, b, c.Start, c.N, c.Dirty)
 	}
 }
